@@ -159,7 +159,7 @@ static void gen_c12(Plan& p, Rng& r) {
             o.n["off"] = offs[r.below(10)]; o.n["whence"] = r.below(12) == 0 ? 3 + (int64_t)r.below(3) : (int64_t)r.below(3);
             p.ops.push_back(o);
         } else if (k < 82) { Op o = mkop("fd_tell", r); o.n["fd_live"] = r.below(8); p.ops.push_back(o); }
-        else if (k < 92) { Op o = mkop("fd_filestat_get", r); o.n["fd_live"] = r.below(8); p.ops.push_back(o); }
+        else if (k < 92) { Op o = mkop("fd_filestat_get", r); if (r.below(5) == 0) o.n["fd_dir"] = r.below(4); else o.n["fd_live"] = r.below(8); p.ops.push_back(o); }
         else { Op o = mkop("fd_close", r); o.n["fd_live"] = r.below(8); p.ops.push_back(o); }
     }
 }
